@@ -1142,4 +1142,75 @@ Section Lemmas.
       eexists; reflexivity. }
     apply H. intros x Hx. apply (sort_desc_In cnt). exact Hx.
   Qed.
+
+  (** ** when a comment can be made: [tune_token] *)
+
+  (** the only failing case of [tune_token]: a shape reference (leading [%])
+      whose remainder is not of the form [<...>] *)
+  Theorem tune_token_none_iff ns k :
+    tune_token ns k = None <->
+    prefixb c_STARTING_CHAR_FOR_SHAPE_NAME k = true /\ remove_corners_strict (slice_from k 1) = None.
+  Proof.
+    unfold tune_token. destruct (prefixb c_STARTING_CHAR_FOR_SHAPE_NAME k).
+    - unfold prefixize_shape_name, prefixize_cornered.
+      destruct (remove_corners_strict (slice_from k 1)) as [cand|].
+      + destruct (best_ns ns cand) as [[n p]|]; split; try discriminate; intros [_ H]; discriminate.
+      + split; auto.
+    - destruct (mem_str k _); [split; [discriminate | intros [H _]; discriminate]|].
+      destruct (negb _).
+      + destruct (contains _ _); split; try discriminate; intros [H _]; discriminate.
+      + destruct (prefixize_opt ns k); split; try discriminate; intros [H _]; discriminate.
+  Qed.
+
+  Definition cm_ok (x : stmt) : Prop := s_choice x = true \/ tune_token (x_ns cfg) (s_type x) <> None.
+
+  Lemma comment_of_total_iff x : (exists k, comment_of cfg x = inl k) <-> cm_ok x.
+  Proof.
+    unfold comment_of, cm_ok. destruct (s_choice x).
+    - split; [auto | intros _; eexists; reflexivity].
+    - destruct (tune_token (x_ns cfg) (s_type x)) as [tk|].
+      + split; [intros _; right; discriminate | intros _; eexists; reflexivity].
+      + split; [intros [k H]; discriminate | intros [H|H]; [discriminate | contradiction]].
+  Qed.
+
+  Lemma cm_ok_core r s : core_eq r s -> cm_ok s -> cm_ok r.
+  Proof.
+    intros Hc. unfold cm_ok. rewrite (core_eq_type _ _ Hc). destruct Hc as (_ & _ & _ & -> & _). auto.
+  Qed.
+
+  Lemma cm_ok_chosen g r : (forall x, In x g -> cm_ok x) -> chosen_from g r -> cm_ok r.
+  Proof. intros Hg (s & Hs & Hc & _). apply (cm_ok_core r s Hc), Hg, Hs. Qed.
+
+  Lemma tune_token_NONLITERAL ns : tune_token ns c_NONLITERAL_ELEM_TYPE <> None.
+  Proof. intros H. apply tune_token_none_iff in H. destruct H as [H _]. vm_compute in H. discriminate. Qed.
+
+  Lemma cm_ok_merge cnt g r : (forall x, In x g -> cm_ok x) -> merge_group fa cfg cnt g = inl r -> cm_ok r.
+  Proof.
+    intros Hg H. apply merge_group_spec in H. destruct H as (d0 & d1 & ks & Hd & Ho & Hc & _).
+    apply (cm_ok_core r d1 Hc). destruct Ho as [|tys _ _ _]; [|left; reflexivity].
+    destruct Hd as [d0 Hin | b i _ _ _ _]; [apply Hg; exact Hin|]. right. apply tune_token_NONLITERAL.
+  Qed.
+
+  (** [select_valid] succeeds, and keeps comments possible, as soon as a
+      comment can be made of every input statement *)
+  Theorem select_valid_total_cm cnt l :
+    (forall x, In x l -> cm_ok x) ->
+    exists out, select_valid fa cfg cnt l = inl out /\ forall r, In r out -> cm_ok r.
+  Proof.
+    intros Hl.
+    destruct (select_valid_total cnt l) as [out E].
+    - intros x Hx. apply comment_of_total_iff, Hl, Hx.
+    - intros x Hx. apply comment_of_total_iff. apply (cm_ok_chosen l x Hl Hx).
+    - exists out. split; [exact E|]. rewrite select_valid_eq in E.
+      destruct (group_same fa cfg (List.length l) cnt l) as [l1|e] eqn:E1; [|discriminate].
+      assert (H1 : forall x, In x l1 -> cm_ok x).
+      { intros x Hx. pose proof (group_same_out _ _ _ _ x (le_n _) E1 Hx) as Hch.
+        apply (cm_ok_chosen _ x) in Hch; [exact Hch|]. intros y Hy. apply filter_In in Hy. apply Hl; tauto. }
+      intros r Hr. destruct (Forall2_In_r _ _ _ _ (group_nodes_spec _ cnt l1 out (le_n _) E) Hr) as [a [Ha Hp]].
+      apply node_heads_In in Ha. unfold node_pick in Hp. destruct (node_pass a); [subst; auto|].
+      assert (Hg : forall x, In x (node_group l1 a) -> cm_ok x).
+      { intros x Hx. apply filter_In in Hx. apply H1; tauto. }
+      destruct (node_group l1 a) as [|x [|y g]]; [destruct Hp | subst; apply Hg; left; reflexivity|].
+      apply (cm_ok_merge cnt _ r Hg Hp).
+  Qed.
 End Lemmas.
